@@ -399,6 +399,8 @@ def seed_acl(rng, plat, n=None, numbered=None, groups=True, headings=True, multi
             r_ = rng.random()
             if r_ < 0.5:
                 ln = f"{parts[0]} ip {kwd} {name} any"
+                if rng.random() < 0.4:       # an entry above that covers every member of the group (until a member is added)
+                    lines.append(native_only(f"{parts[0]} ip {rng.choice(spellings_ace(w, plat))} any", plat))
             elif r_ < 0.75:
                 ln = f"{parts[0]} ip any {kwd} {name}"
             else:
@@ -528,6 +530,10 @@ def make_history(rng, tid, weights, nops=None, plat=None, **seedkw):
         ops.append(op)
         if op["act"] == "DeleteShadow" and rng.random() < 0.7:
             ops.append(dict(act="DeleteShadow", skip=op["skip"], expect_empty=True))
+        if op["act"] in ("Shading", "ShadowOf") and "EditMembers" in weights and rng.random() < 0.5:
+            # report, then the members of a group change (no line does), then the removal: it must work from the lists as they are now
+            ops.append(rand_op(rng, cur, dict(EditMembers=1)))
+            ops.append(dict(act="DeleteShadow", skip=op["skip"]))
         if op["act"] == "Copy" or op["act"] == "DataRoundTrip":
             ops.append(dict(act="TwinOp", op=rng.choice(["platform", "resequence", "pop", "note", "members", "ports", "line", "sort"])))
     for name in list(gdict):     # members in the platform's own spellings (a prefix on IOS is a foreign spelling: C06 two-step domain)
